@@ -60,8 +60,12 @@ impl Spawner for PoolSpawner {
         if self.known_ips.len() < self.config.count - self.current_sources.len() {
             match self.config.addr.lookup_host().await {
                 Ok(addresses) => {
-                    // add the addresses looked up to our list of known ips
-                    self.known_ips.append(&mut addresses.collect());
+                    // add the addresses looked up to our list of known ips, each only once
+                    for address in addresses {
+                        if !self.known_ips.contains(&address) {
+                            self.known_ips.push(address);
+                        }
+                    }
                     // remove known ips that we are already connected to or that we want to ignore
                     self.known_ips.retain(|ip| {
                         !self.current_sources.iter().any(|p| p.addr == *ip)
